@@ -19,10 +19,15 @@
 (***************************************************************************)
 EXTENDS Integers, Sequences, FiniteSets, TLC
 
-VARIABLES own,     \* function: buffer id -> "pool" | "inst" | "co"   (domain = buffers seen so far)
-          live,    \* set of [sid, buf] : slices handed out in the current epoch
-          dirty,   \* set of buffers the co-tenant has overwritten while they were free or its own
-          nopool   \* TRUE for an instance that must not use the pool at all (bytes-backed writer)
+VARIABLES
+  \* @type: Int -> Str;
+  own,     \* function: buffer id -> "pool" | "inst" | "co"   (domain = buffers seen so far)
+  \* @type: Set({sid: Int, buf: Int});
+  live,    \* set of [sid, buf] : slices handed out in the current epoch
+  \* @type: Set(Int);
+  dirty,   \* set of buffers the co-tenant has overwritten while they were free or its own
+  \* @type: Bool;
+  nopool   \* TRUE for an instance that must not use the pool at all (bytes-backed writer)
 
 pvars == <<own, live, dirty, nopool>>
 
@@ -31,7 +36,7 @@ Seen(b) == b \in DOMAIN own
 SetOwner(b, o) == [x \in DOMAIN own \cup {b} |-> IF x = b THEN o ELSE own[x]]
 LiveBufs == {s.buf : s \in live}
 
-PInit(np) == own = <<>> /\ live = {} /\ dirty = {} /\ nopool = np
+PInit(np) == own = [x \in {} |-> "pool"] /\ live = {} /\ dirty = {} /\ nopool = np
 
 \* Guards = the rules P1..P5 (what a recorded event must satisfy)
 MallocAllowed(b, by) ==
